@@ -17,7 +17,10 @@ Record pwin_ok (raw ds : bool) (c : pctx) (W : window) : Prop := {
   pk_type : w_type W = api_type c;
   pk_lo : (w_lo_min W <= c_from_ns c <= w_from W)%Z;                       (* raw path: timestamp_ns >= From *)
   pk_hi : raw = true -> (w_to W <= c_to_ns c + 1000000 <= w_hi_max W + 1)%Z;   (* raw path: timestamp_ns < To + 1 ms *)
-  pk_ds : ds = true -> (w_to W <= c_to_ns c + 1 <= w_hi_max W + 1)%Z            (* down-sampled path: timestamp_ns <= To *)
+  (* down-sampled path: timestamp_ns >= From and timestamp_ns <= To on the roll-up table, whose rows are stamped with the
+     start of their 15-second slot: the bounds are read at slot granularity (Scans.slot_bounded) *)
+  pk_ds : ds = true -> (fl_slot slot15 (w_lo_min W) <= cl_slot slot15 (c_from_ns c) <= w_from W /\
+                        w_to W <= cl_slot slot15 (c_to_ns c + 1) <= cl_slot slot15 (w_hi_max W + 1))%Z
 }.
 
 Section PROM.
@@ -75,7 +78,7 @@ Section PROM.
   Qed.
   (* the metrics_15s skeleton of InitDownsamplePlanner *)
   Lemma prom_data_own t cols :
-    ds = true -> info t = data_typed ->
+    ds = true -> info t = slot15_typed ->
     Forall Q (own_scan (and_where [Ge (Id "samples.timestamp_ns") (IntV (c_from_ns c));
                                     Le (Id "samples.timestamp_ns") (IntV (c_to_ns c)); get_types c]
                           (set_from (SimpleCol t "samples") (set_cols cols empty_select)))).
@@ -88,8 +91,8 @@ Section PROM.
     - constructor; [|constructor; [|constructor; [apply types_conj_free | constructor]]].
       + intros a b [Ht Ha]. subst d1. unfold Ge, classify, col_is, qualifier_ok. cbn. rewrite Ha, Ht. reflexivity.
       + intros a b [Ht Ha]. subst d2. unfold Le, classify, col_is, qualifier_ok. cbn. rewrite Ha, Ht. reflexivity.
-    - left. destruct Hwin as [H1 H2 H3 H4]. specialize (H4 Hds).
-      apply (bounded_data info c W _ (c_from_ns c) (c_to_ns c + 1)); [exact H1 | lia | lia | exact Hi|].
+    - left. destruct Hwin as [H1 H2 H3 H4]. specialize (H4 Hds). destruct H4 as [H4 H5].
+      apply (bounded_slot info c W _ (c_from_ns c) (c_to_ns c + 1)); [exact H1 | exact H4 | exact H5 | exact Hi|].
       unfold bounds. cbn [sc_conj flat_map]. rewrite types_bounds. subst d1 d2. reflexivity.
   Qed.
 
@@ -271,20 +274,42 @@ Definition prom_raw_win (h : hints) : window :=
 Definition prom_ds_win (h : hints) : window :=
   {| w_from := h_start h * 1000000; w_to := h_end h * 1000000 + 1;
      w_lo_min := h_start h * 1000000; w_hi_max := h_end h * 1000000; w_type := 2 |}.
-Lemma prom_win_ok cluster db h : pwin_ok true true (prom_ctx cluster db h) (prom_win h).
+(* the decision of CLokiQuerier.transpileLabelMatchers: the roll-up table is chosen only when hints.Start lies on a
+   15-second boundary TO THE MILLISECOND (seeded change C13-f tested the whole seconds only) *)
+Lemma rollup_start_aligned h : use_raw_data h = false -> ((h_start h * 1000000) mod slot15 = 0)%Z.
+Proof.
+  unfold use_raw_data.
+  destruct (match map_get (h_func h) supported_functions with Some b => (b, true) | None => (false, false) end) as [sup ok].
+  intros H. apply orb_false_iff in H. destruct H as [H _]. apply orb_false_iff in H. destruct H as [H _].
+  apply orb_false_iff in H. destruct H as [H _]. apply negb_false_iff, Z.eqb_eq in H.
+  apply Z.rem_divide in H; [|lia]. destruct H as [q Hq]. rewrite Hq. unfold slot15.
+  replace (q * 15000 * 1000000)%Z with (q * 15000000000)%Z by lia. apply Z_mod_mult.
+Qed.
+Lemma cl_ge x : (x <= cl_slot slot15 x)%Z.
+Proof. destruct (cl_slot_spec slot15 x slot15_pos) as [[H _] _]. exact H. Qed.
+Lemma fl_le x : (fl_slot slot15 x <= x)%Z.
+Proof. destruct (fl_slot_spec slot15 x slot15_pos) as [[H _] _]. exact H. Qed.
+
+Lemma prom_win_ok cluster db h : pwin_ok true (negb (use_raw_data h)) (prom_ctx cluster db h) (prom_win h).
 Proof.
   constructor; unfold prom_win, prom_ctx; destruct (prom_tables cluster db) as [[gin spl] m15];
-    cbn [w_type w_from w_to w_lo_min w_hi_max c_from_ns c_to_ns api_type c_type]; try reflexivity; lia.
+    cbn [w_type w_from w_to w_lo_min w_hi_max c_from_ns c_to_ns api_type c_type]; try reflexivity; try lia.
+  intros Hds. apply negb_true_iff in Hds. rewrite (cl_slot_aligned slot15 _ slot15_pos (rollup_start_aligned h Hds)).
+  pose proof (fl_le (h_start h * 1000000)). pose proof (cl_ge (h_end h * 1000000 + 1)).
+  pose proof (cl_slot_mono slot15 (h_end h * 1000000 + 1) (h_end h * 1000000 + 999999 + 1) slot15_pos ltac:(lia)). lia.
 Qed.
 Lemma prom_raw_win_ok cluster db h : pwin_ok true false (prom_ctx cluster db h) (prom_raw_win h).
 Proof.
   constructor; unfold prom_raw_win, prom_ctx; destruct (prom_tables cluster db) as [[gin spl] m15];
     cbn [w_type w_from w_to w_lo_min w_hi_max c_from_ns c_to_ns api_type c_type]; try reflexivity; try lia; try discriminate.
 Qed.
-Lemma prom_ds_win_ok cluster db h : pwin_ok false true (prom_ctx cluster db h) (prom_ds_win h).
+Lemma prom_ds_win_ok cluster db h : use_raw_data h = false -> pwin_ok false true (prom_ctx cluster db h) (prom_ds_win h).
 Proof.
+  intros Hds.
   constructor; unfold prom_ds_win, prom_ctx; destruct (prom_tables cluster db) as [[gin spl] m15];
     cbn [w_type w_from w_to w_lo_min w_hi_max c_from_ns c_to_ns api_type c_type]; try reflexivity; try lia; try discriminate.
+  intros _. rewrite (cl_slot_aligned slot15 _ slot15_pos (rollup_start_aligned h Hds)).
+  pose proof (fl_le (h_start h * 1000000)). pose proof (cl_ge (h_end h * 1000000 + 1)). lia.
 Qed.
 
 Lemma unQ info W q : good (Q info W false) q -> Forall (scan_bounded info W) (scans q).
@@ -300,7 +325,7 @@ Proof.
   unfold querier_transpile.
   pose proof (prom_ctx_tables cluster db h) as Ht. pose proof (prom_win_ok cluster db h) as Hw.
   set (c := prom_ctx cluster db h) in *. apply unQ.
-  destruct (use_raw_data h); cbn [fst]; [apply (transpile_good _ _ _ true true) | apply (transpile_downsample_good _ _ _ true true)]; auto.
+  destruct (use_raw_data h); cbn [fst negb] in *; [apply (transpile_good _ _ _ true false) | apply (transpile_downsample_good _ _ _ true true)]; auto.
 Qed.
 
 (* a Select planned on the raw samples reads exactly the closed millisecond window [Start, End] *)
@@ -319,7 +344,7 @@ Theorem prom_downsample_select_scans_exact re_full cluster db h ms :
   Forall (scan_bounded table_info (prom_ds_win h)) (scans (fst (querier_transpile re_full cluster db h ms))).
 Proof.
   intros Hr. unfold querier_transpile. rewrite Hr. cbn [fst].
-  apply unQ. apply (transpile_downsample_good _ _ _ false true); [apply prom_ctx_tables | apply prom_ds_win_ok | reflexivity].
+  apply unQ. apply (transpile_downsample_good _ _ _ false true); [apply prom_ctx_tables | apply prom_ds_win_ok, Hr | reflexivity].
 Qed.
 
 Definition ds_hints : hints := {| h_start := 1704888000000; h_end := 1704891600000; h_step := 15000; h_func := ""; h_range := 0 |}.
@@ -330,6 +355,54 @@ Lemma prom_examples :
   use_raw_data raw_hints = true /\ use_raw_data ds_hints = false /\
   Nat.leb 5 (List.length (scans (fst (querier_transpile (fun _ _ => true) true "qryn" raw_hints [m_up; m_re])))) = true /\
   Nat.leb 5 (List.length (scans (fst (querier_transpile (fun _ _ => true) false "qryn" ds_hints [m_up; m_re])))) = true.
+Proof. repeat split; vm_compute; reflexivity. Qed.
+
+(* ------------------------------------------------------------------ the choice of the roll-up table (round 6, seeded change C13-f) *)
+Lemma table_info_slot t k : ti_class (table_info t) = CSlot k -> k = slot15.
+Proof.
+  unfold table_info.
+  repeat match goal with |- context [if ?b then _ else _] => destruct b; cbn [ti_class] end;
+    intros H; try discriminate H; injection H as <-; reflexivity.
+Qed.
+
+(* never miss data inside the window, for the table Select chose: for every instant t of [Start, End] the row of the
+   roll-up table that holds t (stamped with the start of t's 15-second slot) passes every timestamp conjunct of every
+   read of metrics_15s.  This holds BECAUSE the roll-up is chosen for slot-aligned Start only (rollup_start_aligned). *)
+Theorem prom_select_reads_every_slot re_full cluster db h ms t :
+  (h_start h * 1000000 <= t <= h_end h * 1000000)%Z ->
+  Forall (fun sc => forall k, ti_class (table_info (sc_table sc)) = CSlot k ->
+            (forall lo, has_bnd sc (TsLo lo) -> lo <= fl_slot k t)%Z /\ (forall hi, has_bnd sc (TsHi hi) -> fl_slot k t < hi)%Z)
+         (scans (fst (querier_transpile re_full cluster db h ms))).
+Proof.
+  intros Ht. eapply Forall_impl; [|apply prom_select_scans_bounded].
+  intros sc Hb k Hk. pose proof (table_info_slot _ _ Hk) as ->.
+  apply (scan_bounded_slot_complete table_info (prom_win h) sc slot15 t Hb Hk slot15_pos).
+  cbn [prom_win w_from w_to]. lia.
+Qed.
+
+(* ... and it would fail for the other choice: the down-sampled statement for a Start of hh:mm:ss.500 with ss a multiple of
+   15 (what seeded change C13-f sends) is NOT bounded by the hint window: `timestamp_ns >= Start` first reads the row stamped
+   at the NEXT slot boundary, the samples of [Start, Start + 14.5 s) are in no row read *)
+Definition unaligned_hints : hints :=
+  {| h_start := 1704888000500; h_end := 1704891600000; h_step := 60000; h_func := "sum_over_time"; h_range := 89500 |}.
+Theorem prom_downsample_unaligned_start_refuted :
+  (Z.rem (h_start unaligned_hints / 1000) 15 = 0 /\ Z.rem (h_start unaligned_hints) 15000 <> 0)%Z /\
+  use_raw_data unaligned_hints = true /\
+  ~ Forall (scan_bounded table_info (prom_win unaligned_hints))
+      (scans (transpile_label_matchers_downsample (fun _ _ => true) unaligned_hints (prom_ctx false "qryn" unaligned_hints) [m_up; m_re])).
+Proof.
+  split; [split; [reflexivity | discriminate] | split; [reflexivity|]].
+  intros H. apply every_scan_bounded_b_complete in H. vm_compute in H. discriminate H.
+Qed.
+
+(* the hypotheses of the slot theorems are met by statements that do read a slot table: the down-sampled Select of ds_hints
+   and the roll-up shortcut plan of ScansPlanProofs.m15_query each hold a read classified CSlot *)
+Definition reads_slot_table (q : select) : bool :=
+  existsb (fun sc => match ti_class (table_info (sc_table sc)) with CSlot _ => true | _ => false end) (scans q).
+Lemma slot_examples :
+  reads_slot_table (fst (querier_transpile (fun _ _ => true) false "qryn" ds_hints [m_up; m_re])) = true /\
+  reads_slot_table (fst (querier_transpile (fun _ _ => true) true "qryn" ds_hints [m_up; m_re])) = true /\
+  match m15_result with Some (q, _, _) => reads_slot_table q | None => false end = true.
 Proof. repeat split; vm_compute; reflexivity. Qed.
 
 (* for any context with the schema's table classes, both transpilers, any hints *)
